@@ -194,3 +194,108 @@ Example float_group_values_closer_than_1e_6_share_a_rendering :
   f_fmt 0x1.000001p0%float = f_fmt 0x1.000002p0%float /\
   f_bits 0x1.000001p0%float <> f_bits 0x1.000002p0%float.
 Proof. repeat split; vm_compute; try reflexivity; discriminate. Qed.
+
+(* ================================================================== the evaluation discipline (appended)
+   Model/AggregateLazy.v: WHICH evaluations the AggregatePlan asks for, and WHEN a group's row is
+   completed.  [lrun_row] / [lrun_batch] are the twin of the plan drained by Next / by Batch with
+   the rows completed as the Go code completes them (one row per next(), PlanBatchSize rows per
+   batch(), through the LIMIT arithmetic of limit_plan.go when the LIMIT was pushed into the
+   plan); their input is, per scanned pair, the values that WERE evaluated (absent / nil where the
+   Go code evaluates nothing).  [spec_result_lazy] (Spec/GroupLazy.v) is [spec_result] restricted
+   to the groups the LIMIT reaches. *)
+From KV Require Import Model.AggregateLazy Spec.GroupLazy Proofs.AggregateLazyProofs.
+From KV Require Model.Value Model.LimitLazy.
+Notation ROk := Value.Ok (only parsing).
+Notation RErr := (Value.Err Value.EOther) (only parsing).
+
+(* row-at-a-time, rows completed lazily: EXACTLY the lazy reference result -- the LIMIT slice of the
+   specified rows, failing iff one of the first Start + Limit groups (every group without a LIMIT)
+   is undefined (x / 0, unencodable float).  Stronger than aggregate_row_result on the statements
+   where they differ (a group that fails beyond the LIMIT) *)
+Theorem aggregate_row_result_lazy :
+  forall (F : Type) (fadd fsub fmul fdiv : F -> F -> F) (fltb : F -> F -> bool) (fis0 : F -> bool)
+         (of_Z : Z -> F) (to_Z : F -> Z) (fmt_f bits_f : F -> bytes) (json_f : F -> option bytes)
+         (parse_f : bytes -> option F) (json_s : bytes -> bytes)
+         (p : plan F) (pairs : list (pobs F)),
+  lrun_row fadd fsub fmul fdiv fltb fis0 of_Z to_Z fmt_f bits_f json_f parse_f json_s p pairs =
+  exec_res (spec_result_lazy fadd fsub fmul fdiv fltb fis0 of_Z to_Z fmt_f json_f parse_f parse_int json_s
+                             (render_eqb fmt_f bits_f) p pairs).
+Proof. exact lrun_row_spec. Qed.
+Print Assumptions aggregate_row_result_lazy.
+
+(* batch mode, every B >= 1, every chunking of the child's output: a drain that completes returns
+   the lazy reference result, and row mode completes with the same rows (batch mode completes
+   whole runs of B groups, so it may fail on a group row mode never reaches -- not conversely) *)
+Theorem aggregate_batch_result_lazy :
+  forall (F : Type) (fadd fsub fmul fdiv : F -> F -> F) (fltb : F -> F -> bool) (fis0 : F -> bool)
+         (of_Z : Z -> F) (to_Z : F -> Z) (fmt_f bits_f : F -> bytes) (json_f : F -> option bytes)
+         (parse_f : bytes -> option F) (json_s : bytes -> bytes)
+         (p : plan F) (B : nat) (chunks : list (list (pobs F))) (rows : list (list (value F))),
+  1 <= B ->
+  lrun_batch fadd fsub fmul fdiv fltb fis0 of_Z to_Z fmt_f bits_f json_f parse_f json_s p B chunks = ROk rows ->
+  spec_result_lazy fadd fsub fmul fdiv fltb fis0 of_Z to_Z fmt_f json_f parse_f parse_int json_s
+                   (render_eqb fmt_f bits_f) p (List.concat chunks) = Some rows /\
+  lrun_row fadd fsub fmul fdiv fltb fis0 of_Z to_Z fmt_f bits_f json_f parse_f json_s p (List.concat chunks) = ROk rows.
+Proof.
+  intros. split; [eapply lrun_batch_spec; eauto | eapply lrun_batch_row; eauto].
+Qed.
+Print Assumptions aggregate_batch_result_lazy.
+
+(* Next until nil over the prepared group rows completes exactly the first Start + Limit of them *)
+Theorem aggregate_next_completes_start_plus_limit_groups :
+  forall (F : Type) (fadd fsub fmul fdiv : F -> F -> F) (fis0 : F -> bool) (of_Z : Z -> F)
+         (json_f : F -> option bytes) (json_s : bytes -> bytes)
+         (start count : nat) (rows : aggr_rows F),
+  LimitLazy.ldrain_row (anext fadd fsub fmul fdiv fis0 of_Z json_f json_s) start count rows =
+  match fin F fadd fsub fmul fdiv fis0 of_Z json_f json_s (firstn (start + count) rows) with
+  | Some l => ROk (skipn start l)
+  | None => RErr
+  end.
+Proof. exact ldrain_anext. Qed.
+Print Assumptions aggregate_next_completes_start_plus_limit_groups.
+
+(* the lazy twin and the lazy reference refine the eager ones: wherever run_row / run_batch /
+   spec_result define a result, lrun_row / lrun_batch / spec_result_lazy define the same *)
+Theorem aggregate_lazy_refines_eager :
+  forall (F : Type) (fadd fsub fmul fdiv : F -> F -> F) (fltb : F -> F -> bool) (fis0 : F -> bool)
+         (of_Z : Z -> F) (to_Z : F -> Z) (fmt_f bits_f : F -> bytes) (json_f : F -> option bytes)
+         (parse_f : bytes -> option F) (json_s : bytes -> bytes)
+         (p : plan F) (pairs : list (pobs F)) (B : nat) (chunks : list (list (pobs F)))
+         (rows : list (list (value F))),
+  (run_row fadd fsub fmul fdiv fltb fis0 of_Z to_Z fmt_f bits_f json_f parse_f json_s true true p pairs = Some rows ->
+   lrun_row fadd fsub fmul fdiv fltb fis0 of_Z to_Z fmt_f bits_f json_f parse_f json_s p pairs = ROk rows) /\
+  (1 <= B ->
+   run_batch fadd fsub fmul fdiv fltb fis0 of_Z to_Z fmt_f bits_f json_f parse_f json_s true true p B chunks = Some rows ->
+   lrun_batch fadd fsub fmul fdiv fltb fis0 of_Z to_Z fmt_f bits_f json_f parse_f json_s p B chunks = ROk rows) /\
+  (spec_result fadd fsub fmul fdiv fltb fis0 of_Z to_Z fmt_f json_f parse_f parse_int json_s
+               (render_eqb fmt_f bits_f) p pairs = Some rows ->
+   spec_result_lazy fadd fsub fmul fdiv fltb fis0 of_Z to_Z fmt_f json_f parse_f parse_int json_s
+                    (render_eqb fmt_f bits_f) p pairs = Some rows).
+Proof.
+  intros. split; [apply lrun_row_refines | split; [apply lrun_batch_refines | apply spec_result_lazy_refines]].
+Qed.
+Print Assumptions aggregate_lazy_refines_eager.
+
+(* what the Go code does not evaluate is not looked at: from FULL observations (every expression
+   evaluated on every pair) and from the observations with everything removed that the Go code
+   skips ([blank_all]: the non-aggregate fields on later pairs of a group, the arguments no
+   non-count call reads, GROUP BY values without GROUP BY) the plan prepares the same group rows *)
+Theorem unevaluated_values_are_not_looked_at :
+  forall (F : Type) (fadd : F -> F -> F) (fltb : F -> F -> bool) (of_Z : Z -> F) (to_Z : F -> Z)
+         (fmt_f bits_f : F -> bytes) (parse_f : bytes -> option F) (p : plan F) (pairs : list (pobs F)),
+  prepare fadd fltb of_Z to_Z fmt_f bits_f parse_f true true p (blank_all F fmt_f bits_f p [] pairs) =
+  prepare fadd fltb of_Z to_Z fmt_f bits_f parse_f true true p pairs.
+Proof. exact prepare_blank. Qed.
+Print Assumptions unevaluated_values_are_not_looked_at.
+
+(* non-vacuity, and the statements on which lazy and eager differ: 10 / (count - 2) per group,
+   LIMIT 0, 1, groups of 1, 2, 1 pairs.  Row mode returns the first row and never completes the
+   failing second group; batch mode with B = 1 likewise, with B = 2 it completes both and fails;
+   the eager twin and spec_result fail *)
+Example aggregate_result_lazy_nonvacuous :
+  lrun_row_unit lz_plan lz_pairs = ROk [[VBytes "a"; VInt (-10)]]%string /\
+  lrun_batch_unit lz_plan 1 [firstn 2 lz_pairs; skipn 2 lz_pairs] = ROk [[VBytes "a"; VInt (-10)]]%string /\
+  lrun_batch_unit lz_plan 2 [firstn 2 lz_pairs; skipn 2 lz_pairs] = RErr /\
+  run_row_unit true true lz_plan lz_pairs = None /\
+  spec_unit lz_plan lz_pairs = None.
+Proof. exact lazy_completion_witness. Qed.
